@@ -38,7 +38,9 @@ C14 line-protocol driver.
               (U = restart with `--resume`: the new process loads, with forceReload, whatever the
                autosave file holds; nothing is loaded when there is no file)
       flags = one of d p n (persist absent / true / false), then any of
-              f (forceReload) x (provision fails) y (start fails) j (does not decode) i (has an @id) z (config is null)
+              f (forceReload) x (provision fails) y (start fails) j (does not decode) z (config is null)
+              i / u / v (an @id tag on the app / the same renamed / moved to another object: the same config
+              number with different tags differs ONLY in ids — the document, and so the autosave file, differs)
       fault = - | K<k> | F<k>   the k-th file operation of this load: process killed before it / it fails without effect
     answer: per event  `<res>[<ops>]{p=…,t=…}`  joined by ` `
       res = ok | same | rej | killed | R | U:<content>=<res of the resumed load> | U:-
@@ -238,7 +240,8 @@ def lresName : LRes → String
   | .ok => "ok" | .same => "same" | .rejected => "rej" | .killed => "killed"
 
 def isPersistFlag (c : Char) : Bool := c == 'd' || c == 'p' || c == 'n'
-def isOtherFlag (c : Char) : Bool := c == 'f' || c == 'x' || c == 'y' || c == 'j' || c == 'i' || c == 'z'
+def isOtherFlag (c : Char) : Bool :=
+  c == 'f' || c == 'x' || c == 'y' || c == 'j' || c == 'i' || c == 'z' || c == 'u' || c == 'v'
 
 def allDistinct : List Char → Bool
   | [] => true
@@ -266,7 +269,10 @@ def parseAEvent (s : String) : Option AEvent :=
     match ln.toList, flags.toList, parseFFault fault with
     | 'L' :: num, p :: rest, some ft =>
       if num.isEmpty || !num.all Char.isDigit || !isPersistFlag p || !rest.all isOtherFlag || !allDistinct rest
-          || (rest.contains 'z' && (rest.contains 'x' || rest.contains 'y' || rest.contains 'j' || rest.contains 'i')) then none else
+          || (rest.contains 'z' && (rest.contains 'x' || rest.contains 'y' || rest.contains 'j' || rest.contains 'i'
+                || rest.contains 'u' || rest.contains 'v'))
+          || (rest.contains 'i' && rest.contains 'u') || (rest.contains 'i' && rest.contains 'v')
+          || (rest.contains 'u' && rest.contains 'v') then none else
       some (.load
         { cfg := cfgBytes (String.ofList num) (p :: rest)
           force := rest.contains 'f'
